@@ -92,7 +92,10 @@ def execute(plan, timeout=None):
     start, pool_bytes = seg["next"], seg["pool"]
   queries = G.oracle_queries(plan)
   fresh = X.fresh_queries(plan, queries) if queries else []
-  return judge(plan, segments, queries, fresh)
+  # judged in a throw-away child as well (the judge constructs check objects
+  # to read documented severities): the caller stays pristine
+  return core.run_in_child(judge, (plan, segments, queries, fresh), 1200.0,
+                           "engineA judge")
 
 
 # ----------------------------------------------------------------------------
